@@ -97,12 +97,13 @@ type seq struct {
 	wantSnap raftpb.Snapshot
 	first    uint64 // first index the store reported last
 
-	nontrivial      bool
-	conflict        bool
-	conflictRotated bool
-	crossed         bool
+	nontrivial       bool
+	pendingProbe     bool
+	conflict         bool
+	conflictRotated  bool
+	crossed          bool
 	sinceInteresting int
-	key             strings.Builder
+	key              strings.Builder
 }
 
 func errName(err error) string {
@@ -558,6 +559,30 @@ func (s *seq) syncFirst(line int, bound uint64, what string) {
 		s.c.Count("compaction:moved-first")
 	}
 	s.first = f
+	s.pendingProbe = true
+}
+
+// probes: the answers around the first index and the snapshot index, asked after every
+// operation that may have compacted
+func (s *seq) probes() {
+	if !s.pendingProbe || s.dead {
+		return
+	}
+	s.pendingProbe = false
+	si := s.wantSnap.Metadata.Index
+	f := s.first
+	s.qTerm(si)
+	if f > 0 {
+		s.qTerm(f - 1)
+	}
+	s.qTerm(f)
+	if s.r.Bool() {
+		s.qFirst()
+		s.qEnts(f, minU(f+3, s.last+1), 1<<40)
+		if f > 1 {
+			s.qEnts(f-1, f+1, 1<<40)
+		}
+	}
 }
 
 func (s *seq) doReopen() {
@@ -593,6 +618,107 @@ func (s *seq) doReopen() {
 	if s.conflict || s.crossed {
 		s.nontrivial = true
 	}
+	s.probes()
+}
+
+// doCrashRotate: the process dies in the middle of a rotation — the current file is already
+// truncated to its data and the next file exists (logFileOffset zero bytes) but holds no entry
+// yet.  The image is built on a copy of the directory taken without Close; then Init runs on it.
+// (One torn point of AddEntries that needs no VFS hook; correspondence + spec diff only, the
+// Lean theorems cover crashes between operations.)
+func (s *seq) doCrashRotate() {
+	if s.last == 0 {
+		return
+	}
+	nd := s.dir + "x"
+	if err := copyDir(s.dir, nd); err != nil {
+		return
+	}
+	ok := func() bool {
+		d := filepath.Join(nd, "__raft_entries__")
+		des, err := os.ReadDir(d)
+		if err != nil {
+			return false
+		}
+		var curName string
+		var curFirst, maxFid uint64
+		for _, de := range des {
+			if !strings.HasSuffix(de.Name(), ".entry") {
+				continue
+			}
+			id, _ := strconv.ParseUint(strings.TrimSuffix(de.Name(), ".entry"), 10, 64)
+			if id > maxFid {
+				maxFid = id
+			}
+			b, err := readAt(filepath.Join(d, de.Name()), 8, 8)
+			if err != nil {
+				return false
+			}
+			if fi := be64(b); fi >= curFirst && fi > 0 {
+				curFirst, curName = fi, de.Name()
+			}
+		}
+		if curName == "" {
+			return false
+		}
+		path := filepath.Join(d, curName)
+		tab, err := readAt(path, 0, capSlots*32)
+		if err != nil {
+			return false
+		}
+		k := 0
+		for k < capSlots && be64(tab[k*32+8:]) != 0 {
+			k++
+		}
+		if k == 0 {
+			return false
+		}
+		off := be64(tab[(k-1)*32+24:])
+		lb, err := readAt(path, int64(off), 4)
+		if err != nil {
+			return false
+		}
+		end := off + 4 + uint64(lb[0])<<24 + uint64(lb[1])<<16 + uint64(lb[2])<<8 + uint64(lb[3])
+		if os.Truncate(path, int64(end)) != nil {
+			return false
+		}
+		return os.WriteFile(filepath.Join(d, fmt.Sprintf("%05d.entry", maxFid+1)), make([]byte, dataOff), 0o600) == nil
+	}()
+	if !ok {
+		os.RemoveAll(nd)
+		return
+	}
+	hx.Safe(func() { _ = s.rds.Close() })
+	os.RemoveAll(s.dir)
+	s.dir = nd
+	s.c.Count("reopen:crash-in-rotate")
+	if !s.open() {
+		line := s.emit("crashrotate", "err init")
+		s.viol(line, "reopen_failed", "Init failed on the image of a crash inside a rotation")
+		return
+	}
+	line := s.emit("crashrotate", "ok")
+	s.syncFirst(line, s.wantSnap.Metadata.Index, "reopen after a crash inside a rotation")
+	s.probes()
+}
+
+func readAt(path string, off int64, n int) ([]byte, error) {
+	f, err := os.Open(path)
+	if err != nil {
+		return nil, err
+	}
+	defer f.Close()
+	b := make([]byte, n)
+	_, err = f.ReadAt(b, off)
+	return b, err
+}
+
+func be64(b []byte) uint64 {
+	var x uint64
+	for _, c := range b[:8] {
+		x = x<<8 | uint64(c)
+	}
+	return x
 }
 
 func copyDir(src, dst string) error {
@@ -957,6 +1083,7 @@ func (s *seq) doDelBefore() {
 		s.viol(line, "panic", "DeleteBefore "+p)
 	}
 	s.syncFirst(line, i, fmt.Sprintf("DeleteBefore(%d)", i))
+	s.probes()
 }
 
 func minU(a, b uint64) uint64 {
@@ -1047,8 +1174,13 @@ func runSeq(c *hx.Ctx, r *hx.Rng, id int, root string, profile int) {
 			s.doMksnap()
 		case x < 65:
 			s.doDelBefore()
-		case x < 80:
+		case x < 77:
 			s.doReopen()
+			if !s.dead {
+				s.qFiles()
+			}
+		case x < 80:
+			s.doCrashRotate()
 			if !s.dead {
 				s.qFiles()
 			}
